@@ -129,7 +129,7 @@ MAX_POSITIONAL = {'np.exp': 1, 'np.log': 1, 'np.sqrt': 1, 'np.abs': 1, 'np.isnan
                   'scipy.special.binom': 2, 'np.dot': 2, 'np.outer': 2, 'np.cumsum': 2, 'np.mean': 2, 'np.sum': 2,
                   'np.prod': 2, 'math.exp': 1, 'math.log': 2, 'math.sqrt': 1, 'copy.deepcopy': 1, 'copy.copy': 1,
                   'np.concatenate': 2, 'np.hstack': 1, 'np.vstack': 1, 'np.stack': 2, 'np.copy': 1, 'np.array': 2,
-                  'np.fromiter': 2, 'np.linspace': 3,
+                  'np.fromiter': 2, 'np.linspace': 3, 'shift': 2,
                   '.dot': 1, '.max': 1, '.min': 1, '.sum': 1, '.mean': 1, '.cumsum': 1, '.cumprod': 1, '.all': 1, '.any': 1,
                   '.copy': 0, '.astype': 1, '.toarray': 0, '.todense': 0, '.tolist': 0, '.flatten': 1, '.byteswap': 0,
                   '.reverse': 0, '.sort': 0}
@@ -381,10 +381,15 @@ class Fun:
         if y == self.LEAF:
             return self.LEAF
         v = self.fresh()
+        ld = ('load', y, field)
+        if 1 <= field < 60:
+            # y[3]: tuple position 3 (field 4), an unknown position (0), or the VALUE under the key 3 of a dictionary /
+            # an element stored by a slice assignment (both live under VALS, which a positional load does not match)
+            ld = ('choice', ld, ('load', y, VALS))
         if pyc:
-            out.append(('assign', v, ('load', y, field)))
+            out.append(('assign', v, ld))
             return v
-        out.append(('assign', v, ('choice', ('load', y, field), ('alloc', self.mod.new_site(), field, [], [y], [], [y]))))
+        out.append(('assign', v, ('choice', ld, ('alloc', self.mod.new_site(), field, [], [y], [], [y]))))
         return v
 
     def store(self, out, line, recv, field, vals, bulk):
